@@ -640,7 +640,7 @@ func trustedBase(prop string) []string {
 		"SMT solvers z3 4.8.12, z3 5.1.0, cvc5 1.0 (raced; thorough tier asks for agreement)",
 		"Go int treated as mathematical integer (A-INT); strings as SMT-LIB strings (A-UTF8)",
 		"slices have value semantics in the logic (aliasing covered separately by own: obligations where claimed)",
-		"sequence axioms (empty/snoc/take/concat/upd/sub/mk) are assumed theorems of finite lists",
+		"sequence axioms (empty/snoc/take/concat/upd/sub/mk) and the inductive consequences asserted for folds (over concat, at an element) are theorems about finite lists: proved in /verif/lean/SeqAxioms.lean (Lean 4 + Mathlib), re-checked by the thorough tier; the SMT encoding keeps the operations uninterpreted, so the axioms can be incomplete but not inconsistent with lists",
 		"closed world of interface implementations: the named types of the loaded repository packages",
 		"external (dependency / standard library) functions: no panic, results unconstrained unless modelled; write only through pointer/map arguments",
 	}
